@@ -72,6 +72,7 @@ Definition split (b : bytes) : sres :=
 (* outcome of Attribute.unpack(aid, flag, value, negotiated) *)
 Inductive vres :=
 | VOk                       (* an Attribute whose ID is aid *)
+| VDiscarded                (* a Discard pseudo attribute (AIGP on a session without aigp): nothing is recorded under aid *)
 | VNotify (code sub : Z)
 | VIndexValue               (* IndexError or ValueError *)
 | VOther (kind : Z).        (* any other exception *)
@@ -131,6 +132,7 @@ Section Walk.
             else
               match vdec flag' aid attribute with
               | VOk => ACont (aid :: seen) taw
+              | VDiscarded => ACont seen taw
               | VIndexValue =>
                   if r_taw r then ACont seen true
                   else if r_discard r then ACont seen taw
